@@ -3,7 +3,7 @@
   relation (nothing role-relevant changed), and how the primitive state transformers act on it.
 -/
 import DymVerif.Lemmas.CoreCustody3
-namespace DymVerif.Core
+namespace DymVerif.Core.Roles
 
 -- ---------------------------------------------------------------- generic list facts
 
@@ -376,4 +376,4 @@ theorem SuccProp.frame {s s' : St} (h : SuccProp s) (f : Frame s s') : SuccProp 
 
 theorem Roles.frame {s s' : St} (h : Roles s) (f : Frame s s') : Roles s' := ⟨h.core.frame f, h.sp.frame f⟩
 
-end DymVerif.Core
+end DymVerif.Core.Roles
